@@ -8,10 +8,32 @@ import (
 	"math"
 	"os"
 	"strings"
+	"sync"
 	"time"
 
 	"golang.org/x/tools/go/ssa"
 )
+
+var hotspots map[string]int
+var hotMu sync.Mutex
+var hotSamples int
+
+func termStr(t *Term, d int) string {
+	if t.Const {
+		return constStr(t)
+	}
+	if t.Op == "var" {
+		return t.Name
+	}
+	if d == 0 {
+		return "..."
+	}
+	s := "(" + t.Op
+	for _, a := range t.Args {
+		s += " " + termStr(a, d-1)
+	}
+	return s + ")"
+}
 
 type pathEnd struct {
 	kind string // "done", "panic", "infeasible", "unsupported", "truncated", "assume"
@@ -112,7 +134,13 @@ type Engine struct {
 	slept          []*Term
 	inClassify     bool
 	choices        []int
+	varRange       map[*Term]rng
+	rangeMemo      map[*Term]rng
+	RangeHits      int
 	initGlobals    map[*ssa.Package]map[*ssa.Global]bool
+	snapshot_      *initSnapshot
+	snapshotUnsafe bool
+	pathCopier     *copier
 	lastPanicWhere string
 	fnMetas        map[*ssa.Function]*fnMeta
 	stubs          map[string]value
@@ -143,6 +171,10 @@ func (e *Engine) known(c *Term) (bool, bool) {
 			return !v, true
 		}
 	}
+	if v, ok := e.rangeDecide(c); ok {
+		e.RangeHits++
+		return v, true
+	}
 	return false, false
 }
 
@@ -150,6 +182,7 @@ func (e *Engine) addFact(c *Term, v bool) {
 	if c.Const {
 		return
 	}
+	e.noteRangeFact(c, v)
 	if c.Op == "not" {
 		e.addFact(c.Args[0], !v)
 		return
@@ -180,21 +213,7 @@ func (e *Engine) addFactQuiet(c *Term, v bool) {
 	e.facts[c.id] = v
 }
 
-func usesFP(t *Term, seen map[*Term]bool) bool {
-	if seen[t] {
-		return false
-	}
-	seen[t] = true
-	if t.S.K == 2 {
-		return true
-	}
-	for _, a := range t.Args {
-		if usesFP(a, seen) {
-			return true
-		}
-	}
-	return false
-}
+func usesFP(t *Term, seen map[*Term]bool) bool { return t.fp }
 
 func (e *Engine) check(extra *Term, wantModel bool) (string, map[string]uint64) {
 	s := e.solver
@@ -289,6 +308,15 @@ func (e *Engine) decide(c *Term) bool {
 			var r string
 			r, mF = e.check(Not(c), true)
 			ff = r != "unsat"
+		}
+		if hotspots != nil && !(ft && ff) {
+			hotMu.Lock()
+			hotspots[e.whereStr()]++
+			if hotSamples < 12 && strings.Contains(e.whereStr(), "c13Authority") {
+				hotSamples++
+				fmt.Fprintf(os.Stderr, "SAMPLE ft=%v ff=%v %s\n", ft, ff, termStr(c, 6))
+			}
+			hotMu.Unlock()
 		}
 		switch {
 		case ft && ff:
@@ -404,6 +432,13 @@ func (e *Engine) stackStr() string {
 func (e *Engine) global(g *ssa.Global) *value {
 	if p, ok := e.globals[g]; ok {
 		return p
+	}
+	if e.pathCopier != nil {
+		if sp, ok := e.snapshot_.globals[g]; ok {
+			p := e.pathCopier.copy(sp).(*value)
+			e.globals[g] = p
+			return p
+		}
 	}
 	p := new(value)
 	if g.Pkg != nil && !e.initDone[g.Pkg] && e.hasInitialiser(g) {
@@ -551,7 +586,7 @@ func (e *Engine) byteStore(a *byteArr, off int, idx *Term, v *Term) {
 		return
 	}
 	for i := 0; off+i < len(a.b); i++ {
-		a.b[off+i] = Ite(Eq(idx, BV(64, uint64(i))), v, a.b[off+i])
+		a.b[off+i] = e.ite(Eq(idx, BV(64, uint64(i))), v, a.b[off+i])
 	}
 }
 
@@ -577,6 +612,20 @@ func (e *Engine) strEq(a, b *bytesV) *Term {
 	return r
 }
 
+// ite builds an if-then-else term after checking whether the condition is
+// already decided by the facts and value ranges of the path.
+func (e *Engine) ite(c, a, b *Term) *Term {
+	if !c.Const {
+		if v, ok := e.known(c); ok {
+			if v {
+				return a
+			}
+			return b
+		}
+	}
+	return Ite(c, a, b)
+}
+
 // concat joins two byte strings without forking: cell i of the result is a[i]
 // when i < len(a), otherwise b[i-len(a)], with len(a) possibly symbolic.
 func (e *Engine) concat(a, b *bytesV) *bytesV {
@@ -594,11 +643,11 @@ func (e *Engine) concat(a, b *bytesV) *bytesV {
 		// candidates from b: len(a)==k, index i-k
 		for k := minA; k <= capA && k <= i; k++ {
 			if i-k < capB {
-				cell = Ite(Eq(a.n, BV(64, uint64(k))), b.arr.b[b.off+i-k], cell)
+				cell = e.ite(Eq(a.n, BV(64, uint64(k))), b.arr.b[b.off+i-k], cell)
 			}
 		}
 		if i < capA {
-			cell = Ite(Ult(BV(64, uint64(i)), a.n), a.arr.b[a.off+i], cell)
+			cell = e.ite(Ult(BV(64, uint64(i)), a.n), a.arr.b[a.off+i], cell)
 		}
 		arr.b[i] = cell
 	}
@@ -617,7 +666,7 @@ func (e *Engine) snapshot(a *bytesV) *bytesV {
 
 // copyBytes implements copy(dst, src) and returns the count.
 func (e *Engine) copyBytes(dst, src *bytesV) *Term {
-	n := Ite(Ult(dst.n, src.n), dst.n, src.n)
+	n := e.ite(Ult(dst.n, src.n), dst.n, src.n)
 	m := dst.cap
 	if src.cap < m {
 		m = src.cap
@@ -635,7 +684,7 @@ func (e *Engine) copyBytes(dst, src *bytesV) *Term {
 	}
 	for i := 0; i < m; i++ {
 		in := Ult(BV(64, uint64(i)), n)
-		dst.arr.b[dst.off+i] = Ite(in, tmp[i], dst.arr.b[dst.off+i])
+		dst.arr.b[dst.off+i] = e.ite(in, tmp[i], dst.arr.b[dst.off+i])
 	}
 	return n
 }
@@ -989,9 +1038,7 @@ func (e *Engine) callFnEnv(fn *ssa.Function, args []value, env []value) value {
 	m := e.meta(fn)
 	name := m.name
 	if len(e.stubs) > 0 {
-		if sv, ok := e.stubs[name]; ok && !e.inStub[name] {
-			e.inStub[name] = true
-			defer delete(e.inStub, name)
+		if sv, ok := e.stubs[name]; ok {
 			return e.callAny(nil, sv, args, 0)
 		}
 	}
